@@ -1370,3 +1370,9 @@ VP("C08-R3C-mut-provider-swap", "C03", "assign-then-return form: xor requested, 
    "            provider = XorProvider(self.__key)", "            provider = AesProvider(self.__key)")
 VP("C08-R3C-mut-best-unresolved", "C03", "assign-then-return form: 'best' recorded unresolved", "C08-R3C", ENC,
    '        elif resolved == "xor":\n            provider = XorProvider(self.__key)', '        elif resolved == "xor" or method == "best":\n            resolved = method\n            provider = XorProvider(self.__key)')
+VP("C19-R3A-twin-exists-on-expanded", "C19", "clean-up of a *new* partial file, existence tested on the path that is later removed", "C19-R3A", CORE,
+   "        is_new_file = not os.path.exists(filename)\n        filename = os.path.expanduser(filename)\n",
+   "        filename = os.path.expanduser(filename)\n        is_new_file = not os.path.exists(filename)\n", expect="silent")
+V("C19-backup-rename-before-dumps", "C19", "previous file renamed away before serialisation", CORE,
+  "        content = self.dumps(format, **kwargs)\n        filename = os.path.expanduser(filename)\n",
+  "        filename = os.path.expanduser(filename)\n        if os.path.exists(filename):\n            os.rename(filename, filename + '.bak')\n        content = self.dumps(format, **kwargs)\n")
